@@ -578,6 +578,37 @@ pub fn other_builders() -> Vec<(&'static str, SerBuilder)> {
             Ok(out)
         })
     }));
+    // initial parameters held in a non-standard memory layout (deserialisation restores standard
+    // layout), finite or not: the guard's verdict and the refit must not depend on the layout
+    v.push(("logistic-params-initial-layout", |seed| {
+        let vals = [0.1, -0.2, [0.3, f64::NAN, f64::INFINITY, 0.3][(seed % 4) as usize]];
+        let rev = Array1::from(vec![vals[2], vals[1], vals[0]]);
+        let init = rev.slice(ndarray::s![..;-1]).to_owned(); // logical [0.1, -0.2, x], stride -1
+        let p = linfa_logistic::LogisticRegression::<f64>::default().max_iterations(40).initial_params(init);
+        ser!("logistic-params-initial-layout", p, noeq, |p: &linfa_logistic::LogisticRegression<f64>| {
+            let d = make_data(6, 60, 2, false);
+            let mut out = vec![("check".to_string(), verdict(p.check_ref()))];
+            if p.check_ref().is_ok() {
+                out.push(("refit".into(), refit_or_err(p.fit(&Dataset::new(d.x.clone(), d.ybin.clone())).map_err(es).map(|m| arr1(m.params())))));
+            }
+            Ok(out)
+        })
+    }));
+    v.push(("multi-logistic-params-initial-layout", |seed| {
+        let bad = [0.05, f64::NAN, f64::NEG_INFINITY, 0.05][(seed % 4) as usize];
+        // logical 3 x 3 (2 features + intercept row, 3 classes), stored column-major
+        let t = Array2::from_shape_fn((3, 3), |(c, r)| if (r, c) == (1, 2) { bad } else { 0.01 * (r as f64) - 0.02 * (c as f64) });
+        let init = t.reversed_axes();
+        let p = linfa_logistic::MultiLogisticRegression::<f64>::default().max_iterations(40).initial_params(init);
+        ser!("multi-logistic-params-initial-layout", p, noeq, |p: &linfa_logistic::MultiLogisticRegression<f64>| {
+            let d = make_data(6, 90, 2, false);
+            let mut out = vec![("check".to_string(), verdict(p.check_ref()))];
+            if p.check_ref().is_ok() {
+                out.push(("refit".into(), refit_or_err(p.fit(&Dataset::new(d.x.clone(), d.ycls.clone())).map_err(es).map(|m| arr2(m.params())))));
+            }
+            Ok(out)
+        })
+    }));
     v.push(("tree-params-hostile", |seed| {
         let base = linfa_trees::DecisionTree::<f64, usize>::params().max_depth(Some(3));
         let h = hostile(seed) as f32;
